@@ -33,22 +33,32 @@ def assigned_value(f, target_text):
 def rule_provenance(report, prog):
     f = prog.func(LLC + '.activate')
     cfg = cfg_of(f)
-    want = {"self.cfg['send-miu']": 'rcvd_pax.miu', "self.cfg['recv-lto']": 'rcvd_pax.lto',
-            "self.cfg['send-wks']": 'rcvd_pax.wks', "self.cfg['send-lsc']": 'rcvd_pax.lsc'}
+    # the variables are identified by what creates them, not by their names
+    def bound_from(prefix):
+        return [st for st in walk_no_nested(f.node) if isinstance(st, ast.Assign) and len(st.targets) == 1 and isinstance(st.targets[0], ast.Name) and
+                norm(st.value).startswith(prefix)]
+    gb_names = sorted(set(st.targets[0].id for st in bound_from('mac.activate(')))
+    GB = gb_names[0] if len(gb_names) == 1 else 'gb'
+    sp = sorted(set(st.targets[0].id for st in bound_from('pdu.ParameterExchange(')))
+    SEND = sp[0] if len(sp) == 1 else 'send_pax'
+    rp = sorted(set(st.targets[0].id for st in bound_from('pdu.decode(')))
+    RCVD = rp[0] if len(rp) == 1 else 'rcvd_pax'
+    want = {"self.cfg['send-miu']": RCVD + '.miu', "self.cfg['recv-lto']": RCVD + '.lto',
+            "self.cfg['send-wks']": RCVD + '.wks', "self.cfg['send-lsc']": RCVD + '.lsc'}
     for tgt, src in sorted(want.items()):
         sts = assigned_value(f, tgt)
         okk = len(sts) == 1 and norm(sts[0].value) == src
-        report.check(okk, 'C19-R1', key(f.qname, '%s := %s' % (tgt, src)), f.loc(sts[0]) if sts else f.loc(),
+        report.check(okk, 'C19-R1', key(f.qname, '%s := %s' % (tgt, src.replace(RCVD, 'rcvd_pax'))), f.loc(sts[0]) if sts else f.loc(),
                      '%s is not taken from the peer\'s parameter exchange (%s): %s' % (
                          tgt, src, [norm(s.value) for s in sts]))
     # rcvd_pax is the decode of the general bytes returned by mac.activate
-    d = assigned_value(f, 'rcvd_pax')
-    okk = len(d) == 1 and norm(d[0].value) == "pdu.decode(b'\\x00@' + bytes(gb[3:]))"
+    d = assigned_value(f, RCVD)
+    okk = len(d) == 1 and norm(d[0].value) == "pdu.decode(b'\\x00@' + bytes(%s[3:]))" % GB
     report.check(okk, 'C19-R1', key(f.qname, 'rcvd_pax = decode(PAX header + peer general bytes after the magic)'),
                  f.loc(d[0]) if d else f.loc(), 'rcvd_pax is %s' % [norm(x.value) for x in d])
-    gbs = assigned_value(f, 'gb')
+    gbs = assigned_value(f, GB)
     srcs = sorted(norm(s.value) for s in gbs)
-    okk = srcs == ["b'Ffm' + pdu.encode(send_pax)[2:]", 'mac.activate(gbi=gb, **options)', 'mac.activate(gbt=gb, **options)']
+    okk = srcs == ["b'Ffm' + pdu.encode(%s)[2:]" % SEND, 'mac.activate(gbi=%s, **options)' % GB, 'mac.activate(gbt=%s, **options)' % GB]
     report.check(okk, 'C19-R1', key(f.qname, 'gb: ours goes in, the peer\'s comes back from mac.activate'), f.loc(),
                  'general bytes flow changed: %s' % srcs)
     if d and gbs:
@@ -58,15 +68,15 @@ def rule_provenance(report, prog):
         reach = cfg.reachable(cfg.entry, avoid_nodes=acts)
         report.check(dn not in reach, 'C19-R1', key(f.qname, 'PAX decoded from the bytes returned by mac.activate'), f.loc(d[0]),
                      'the received PAX can be decoded from our own general bytes')
-        t = tests(cfg, "gb.startswith(b'Ffm')")
+        t = tests(cfg, "%s.startswith(b'Ffm')" % GB)
         report.check(bool(t), 'C19-R1', key(f.qname, 'LLCP magic number tested'), f.loc(), 'magic number test missing')
     # what we announce comes from the local options
-    ann = {'send_pax.miu': "self.cfg['recv-miu']", 'send_pax.lto': "self.cfg['send-lto']", 'send_pax.lsc': "self.cfg['send-lsc']",
-           'send_pax.wks': 'wks'}
+    ann = {SEND + '.miu': "self.cfg['recv-miu']", SEND + '.lto': "self.cfg['send-lto']", SEND + '.lsc': "self.cfg['send-lsc']",
+           SEND + '.wks': 'wks'}
     for tgt, src in sorted(ann.items()):
         sts = assigned_value(f, tgt)
         okk = len(sts) == 1 and norm(sts[0].value) == src
-        report.check(okk, 'C19-R1', key(f.qname, 'announce %s := %s' % (tgt, src)), f.loc(sts[0]) if sts else f.loc(),
+        report.check(okk, 'C19-R1', key(f.qname, 'announce %s := %s' % (tgt.replace(SEND, 'send_pax'), src)), f.loc(sts[0]) if sts else f.loc(),
                      'announced %s is %s' % (tgt, [norm(s.value) for s in sts]))
     # omitted-default agreement of the PAX we send (guards vs pdu defaults)
     defaults = {"self.cfg['recv-miu'] != 128": 'miu', "self.cfg['send-lto'] != 100": 'lto', "self.cfg['send-lsc'] != 0": 'lsc'}
